@@ -3518,8 +3518,14 @@ RegistryT<ArgsT<TG_, TSL_, TRL_, NCC_, NOC_, NOU_, TRO_ HFSM2_IF_SERIALIZATION(,
 		 parent;
 		 parent = forkParent(parent.forkId))
 	{
-		if (parent.forkId > 0)
+		if (parent.forkId > 0) {
 			compoRemains.set(parent.forkId - 1);
+
+			Prong& requested = compoRequested[parent.forkId - 1];
+
+			if (requested != parent.prong && requested != INVALID_PRONG)
+				requested  = INVALID_PRONG;
+		}
 		else
 		if (parent.forkId < 0)
 			requestedOrthoFork(parent.forkId).set(parent.prong);
@@ -3854,6 +3860,11 @@ RegistryT<ArgsT<TG_, TSL_, TRL_, NCC_, 0, 0, TRO_ HFSM2_IF_SERIALIZATION(, NSB_)
 		{
 			HFSM2_ASSERT(parent.forkId > 0);
 			compoRemains.set(parent.forkId - 1);
+
+			Prong& requested = compoRequested[parent.forkId - 1];
+
+			if (requested != parent.prong && requested != INVALID_PRONG)
+				requested  = INVALID_PRONG;
 		}
 	}
 }
